@@ -8,62 +8,76 @@ pointer structure: a node has a key, an identity (the address of the `PairNode`)
   findMin / deleteMin            ↦ `findMin` / `deleteMin` (two-pass `combineSiblings`)
   merge                          ↦ `merge`
   decreaseKey(p, newVal)         ↦ `decreaseKey` (cut the subtree of `p`, re-link with the root)
+
+The key type `κ` and the comparison `lt` (`TCompare`) are parameters: the heap-operation
+correspondence uses `Rat` keys (`ltRat`), Dijkstra uses `Option Rat` keys with `none` = DBL_MAX
+(`ltDist` = `CompareNodes`: `u->d < v->d`).
 -/
 namespace AdaptaVerif.Model.PairingHeap
 
-inductive PTree where
+inductive PTree (κ : Type) where
   | nil
-  | node (key : Rat) (id : Nat) (child sibling : PTree)
+  | node (key : κ) (id : Nat) (child sibling : PTree κ)
   deriving Repr, Inhabited
+
+variable {κ : Type}
+
+def ltRat (a b : Rat) : Bool := decide (a < b)
+
+/-- `CompareNodes`: `u->d < v->d` with `none` = DBL_MAX -/
+def ltDist : Option Rat → Option Rat → Bool
+  | none, _ => false
+  | some _, none => true
+  | some x, some y => decide (x < y)
 
 /-- `compareAndLink(first, second)`; `first->nextSibling` is null on entry, the result takes the
     place of `first` and keeps `second`'s sibling. `lessThan(second, first)` ⇒ `first` becomes the
     leftmost child of `second`, otherwise `second` becomes the leftmost child of `first`. -/
-def link : PTree → PTree → PTree
+def link (lt : κ → κ → Bool) : PTree κ → PTree κ → PTree κ
   | a, .nil => a
   | .nil, b => b
   | .node ka ia ca _, .node kb ib cb sb =>
-    if kb < ka then .node kb ib (.node ka ia ca cb) sb
+    if lt kb ka = true then .node kb ib (.node ka ia ca cb) sb
     else .node ka ia (.node kb ib cb ca) sb
 
-def insert (h : PTree) (key : Rat) (id : Nat) : PTree :=
+def insert (lt : κ → κ → Bool) (h : PTree κ) (key : κ) (id : Nat) : PTree κ :=
   match h with
   | .nil => .node key id .nil .nil
-  | _ => link h (.node key id .nil .nil)
+  | _ => link lt h (.node key id .nil .nil)
 
-def findMin : PTree → Option (Rat × Nat)
+def findMin : PTree κ → Option (κ × Nat)
   | .nil => none
   | .node k i _ _ => some (k, i)
 
 /-- the sibling chain as a list of detached trees (`siblingsTreeArray`, links broken) -/
-def siblings : PTree → List PTree
+def siblings : PTree κ → List (PTree κ)
   | .nil => []
   | .node k i c s => .node k i c .nil :: siblings s
 
 /-- first pass: combine two at a time, left to right -/
-def pass1 : List PTree → List PTree
-  | a :: b :: rest => link a b :: pass1 rest
+def pass1 (lt : κ → κ → Bool) : List (PTree κ) → List (PTree κ)
+  | a :: b :: rest => link lt a b :: pass1 lt rest
   | l => l
 
 /-- odd leftover into the last pair, then right to left -/
-def pass2 : List PTree → PTree
+def pass2 (lt : κ → κ → Bool) : List (PTree κ) → PTree κ
   | [] => .nil
   | [a] => a
-  | a :: rest => link a (pass2 rest)
+  | a :: rest => link lt a (pass2 lt rest)
 
-def combineSiblings (t : PTree) : PTree := pass2 (pass1 (siblings t))
+def combineSiblings (lt : κ → κ → Bool) (t : PTree κ) : PTree κ := pass2 lt (pass1 lt (siblings t))
 
-def deleteMin : PTree → PTree
+def deleteMin (lt : κ → κ → Bool) : PTree κ → PTree κ
   | .nil => .nil
-  | .node _ _ c _ => combineSiblings c
+  | .node _ _ c _ => combineSiblings lt c
 
-def merge (h rhs : PTree) : PTree :=
+def merge (lt : κ → κ → Bool) (h rhs : PTree κ) : PTree κ :=
   match h with
   | .nil => rhs
-  | _ => link h rhs
+  | _ => link lt h rhs
 
 /-- remove the subtree rooted at `id` from a forest: (rest, detached subtree with its sibling cleared) -/
-def detach (id : Nat) : PTree → PTree × Option PTree
+def detach (id : Nat) : PTree κ → PTree κ × Option (PTree κ)
   | .nil => (.nil, none)
   | .node k i c s =>
     if i = id then (s, some (.node k i c .nil))
@@ -74,22 +88,22 @@ def detach (id : Nat) : PTree → PTree × Option PTree
         match detach id s with
         | (s', r) => (.node k i c s', r)
 
-def setKey (nk : Rat) : PTree → PTree
+def setKey (nk : κ) : PTree κ → PTree κ
   | .nil => .nil
   | .node _ i c s => .node nk i c s
 
-def decreaseKey (h : PTree) (id : Nat) (nk : Rat) : PTree :=
+def decreaseKey (lt : κ → κ → Bool) (h : PTree κ) (id : Nat) (nk : κ) : PTree κ :=
   match h with
   | .nil => .nil
   | .node k i c s =>
     if i = id then .node nk i c s
     else
       match detach id c with
-      | (c', some t) => link (.node k i c' s) (setKey nk t)
+      | (c', some t) => link lt (.node k i c' s) (setKey nk t)
       | (_, none) => h
 
 /-- all `(key, id)` pairs stored -/
-def elems : PTree → List (Rat × Nat)
+def elems : PTree κ → List (κ × Nat)
   | .nil => []
   | .node k i c s => (k, i) :: (elems c ++ elems s)
 
